@@ -274,7 +274,12 @@ theorem acknowledged_never_resent (pre post : List Op) (p : Nat)
 /-- **Covered by `<failed h/>`: never resent.** After a `<failed h/>` (handled count of the session
 that could not be resumed, XEP-0198 section 5) no stored packet with number `≤ h` is ever written
 again, in any continuation of the history in which the server does not later report a *lower* count
-for the same dead session. -/
+for the same dead session.
+Hypothesis `hmono` is an **environment assumption**, not a restriction on the client: XEP-0198 makes
+`h` non-decreasing within a session, so a conforming server cannot answer a later `<resume/>` for the
+same `previd` with a smaller `<failed h/>`.  It is needed because the code overwrites the stored
+count with the latest one (it does not keep the maximum); a non-conforming server lowering its count
+would get the stanzas between the two counts retransmitted (duplicates, no loss). -/
 theorem failed_h_covered_never_resent (pre post : List Op) (h k p : Nat)
     (hm : (k, p) ∈ (run init pre).1.unacked) (hk : k ≤ h)
     (hmono : ∀ h', Op.resumeFailed (some h') ∈ post → h ≤ h') :
